@@ -1311,6 +1311,8 @@ class Interp:
                 return obj.node.name
             q = f'{obj.node.name}.{attr}'
             if q in obj.mod.functions:
+                if any(norm(d) == 'classmethod' for d in obj.mod.functions[q].decorator_list):
+                    return RepoFunc(self, obj.mod, obj.mod.functions[q], bound_self=obj)
                 return RepoFunc(self, obj.mod, obj.mod.functions[q])
             for st in obj.node.body:
                 if isinstance(st, (ast.Assign, ast.AnnAssign)):
@@ -1352,6 +1354,8 @@ class Interp:
                 return RepoFunc(self, cls.mod, fn)(inst)
             if 'staticmethod' in decos:
                 return RepoFunc(self, cls.mod, fn)
+            if 'classmethod' in decos:
+                return RepoFunc(self, cls.mod, fn, bound_self=(inst._cls if isinstance(inst, Instance) else cls))
             return RepoFunc(self, cls.mod, fn, bound_self=inst)
         for st in cls.node.body:
             if isinstance(st, (ast.Assign, ast.AnnAssign)):
